@@ -59,6 +59,17 @@ CLAIMS = {
   "for all bases of small shapes and random larger ones, read-back through the real reader, and write-own-basis / continue sequences.",
   COMMON_NOTE + "Names assumed distinct and free of white space; the MPS line tokenizer under the reader is not modelled.",
   "DESIGN.md C14", "Lean 4 proof of the basis-file codec round trip + model/implementation correspondence check"),
+ "C12": ("proof",
+  "Lean theorems over a verdict model (isBasicSol multiplication check, primal/dual feasibility at tolerance 0, dual bound): for every LP and every basis, "
+  "verdict 'optimal' => the exact basic solution is feasible and no point inside the bounds is better; the dual bound equals the objective of the basic solution "
+  "and bounds every feasible point; two optimal verdicts agree on the value. Tied to /repo: every valid basis (each basic set x each at-lower/at-upper/free "
+  "assignment, capped per LP) of exhaustive-small and random LPs is handed to QSexact_basis_optimalstatus / _dualstatus (in varying order, in-process and forked) "
+  "and result + dual bound are compared with the Lean verdicts computed on an independently computed exact basic solution that the Lean multiplication check "
+  "identifies on the library's own internal LP; bases returned with OPTIMAL by exact/primal/dual entry points under random pricing/scaling are checked for one "
+  "basic per row, statuses naming existing bounds, basic solution == reported x/pi/objective, and confirmation by the verdict functions and warm-started solves.",
+  COMMON_NOTE + "Singular supplied bases (library repairs them) are counted, not compared. The LU solve inside the verdict functions is tied by observation only (see C13). "
+  "QSexact_verify is exercised only through its exact fallback.",
+  "DESIGN.md C12", "Lean 4 proof over a model of the basis verdicts + model/implementation correspondence check"),
  "C03": ("proof",
   "Partial by nature. Proved in Lean: soundness of the three certificate checkers (optimality, Farkas, unbounded ray), mutual exclusivity of the three "
   "classes and uniqueness of the certified value - so the 'mathematical truth' of an LP is well defined by whichever certificate exists - and the "
